@@ -115,6 +115,7 @@ statechart:
         target: paused
       states:
       - name: s1
+        on entry: send('tick', n=1)
         transitions:
         - event: next
           target: s2
@@ -172,7 +173,8 @@ THENS = {
            'variables': [('n', '0'), ('n', '2'), ('n', '7'), ('last', '5'), ('last', 'None'), ('basket', '[]'),
                          ('basket', '[1]')],
            'expressions': ['n == 2', 'n > 2', 'last is None', "active('r2')"]},
-    'k3': {'states': ['root', 'loop', 's1', 's2', 's3', 'paused'], 'events': ['nope'], 'event_params': [],
+    'k3': {'states': ['root', 'loop', 's1', 's2', 's3', 'paused'], 'events': ['tick', 'nope'],
+           'event_params': [('tick', 'n', '1'), ('tick', 'n', '2')],
            'variables': [('zz', '0')], 'expressions': ["active('s2')", "active('paused')"]},
 }
 _SC = {}
@@ -238,6 +240,10 @@ class Oracle:
         self.snaps = None
         self.monitoring = False
         self.conf = set()       # active states, folded from what every macro step said it exited and entered
+        # events really sent, as announced to a listener while the code runs (not as listed by the macro steps)
+        self.announced = []
+        self.it.attach(lambda ev: self.announced.append(ev.event) if ev.name == 'event sent' else None)
+        self.sent_snaps = None
 
     def act(self, keyword, text):
         """perform one given/when step"""
@@ -273,7 +279,9 @@ class Oracle:
         self._after(keyword)
 
     def _after(self, keyword):
+        n0 = len(self.announced)
         steps = self.it.execute()
+        new_sent = [types.SimpleNamespace(name=e.name, data=copy.deepcopy(dict(e.data))) for e in self.announced[n0:]]
         for st in steps:
             for ms in st.steps:
                 self.conf.difference_update(ms.exited_states)
@@ -283,7 +291,9 @@ class Oracle:
                 self.monitoring = True
                 self.monitored = []
                 self.snaps = []
+                self.sent_snaps = []
             self.monitored.extend(steps)
+            self.sent_snaps.extend(new_sent)
             # what the macro steps said when they were returned (the facts a verdict is about), kept apart from
             # the live objects
             for st in steps:
@@ -303,7 +313,7 @@ class Oracle:
             act = s in self.conf
             return {'is entered': ent, 'is not entered': not ent, 'is exited': exi, 'is not exited': not exi,
                     'is active': act, 'is not active': not act}[pat]
-        sent = [e for st in mon for ms in st.steps for e in ms.sent_events]
+        sent = self.sent_snaps
         if t[0] == 'event':
             fired = any(e.name == t[1] for e in sent)
             return fired if t[2] == 'is fired' else not fired
